@@ -127,6 +127,19 @@ class NPProxy:
     def isin(self, element, test_elements, **kw):
         return real_np.isin(self._int_concrete(element, 'isin'), self._int_concrete(test_elements, 'isin'), **kw)
 
+    def unique(self, ar, *a, **kw):
+        # (with axis=... numpy refuses object arrays; integer content is concretised as for the other set routines)
+        return real_np.unique(self._int_concrete(ar, 'unique'), *a, **kw)
+
+    def setdiff1d(self, ar1, ar2, **kw):
+        return real_np.setdiff1d(self._int_concrete(ar1, 'setdiff1d'), self._int_concrete(ar2, 'setdiff1d'), **kw)
+
+    def intersect1d(self, ar1, ar2, **kw):
+        return real_np.intersect1d(self._int_concrete(ar1, 'intersect1d'), self._int_concrete(ar2, 'intersect1d'), **kw)
+
+    def union1d(self, ar1, ar2):
+        return real_np.union1d(self._int_concrete(ar1, 'union1d'), self._int_concrete(ar2, 'union1d'))
+
     def in1d(self, ar1, ar2, **kw):
         return real_np.in1d(self._int_concrete(ar1, 'in1d'), self._int_concrete(ar2, 'in1d'), **kw)
 
